@@ -33,7 +33,11 @@ def kindName : String → String
   | "uset" => "unordered_set" | "map" => "map" | "umap" => "unordered_map" | "arr" => "array" | "carr" => "carray"
   | s => s
 
-def kindOf (s : String) : Option KindInfo := Extracted.kindTable.lookup (kindName s)
+/-- `spec = false`: the container table as extracted (C04: the model follows the code);
+    `spec = true`: the table the C11 budget is stated for (`specKind`; obligation `alloc_count_slots` shows it is the
+    extracted one) — the predicted allocations are the property's, not the implementation's -/
+def kindOf (spec : Bool) (s : String) : Option KindInfo :=
+  (Extracted.kindTable.lookup (kindName s)).map (fun ki => if spec then specKind (kindName s) ki else ki)
 
 mutual
 partial def parseShape : List Char → Option (Shape × List Char)
@@ -101,7 +105,7 @@ def hexField (cs : List Char) : Option (Bytes × List Char) :=
   | _ => none
 
 mutual
-partial def parseArg : List Char → Option (Arg × List Char)
+partial def parseArg (spec : Bool) : List Char → Option (Arg × List Char)
   | 'P' :: k :: cs => do
     let pk ← primKind k
     let (b, r) ← hexField cs
@@ -116,13 +120,13 @@ partial def parseArg : List Char → Option (Arg × List Char)
   | 'S' :: cs => do let (b, r) ← hexField cs; some (.str b, r)
   | 'Q' :: cs => do
     let nm := cs.takeWhile (· ≠ '(')
-    let ki ← kindOf (String.ofList nm)
+    let ki ← kindOf spec (String.ofList nm)
     match cs.dropWhile (· ≠ '(') with
     | '(' :: r0 =>
       let (es, r1) ← parseShape r0
       match r1 with
       | ';' :: r2 =>
-        let (l, r3) ← parseArgs r2
+        let (l, r3) ← parseArgs spec r2
         some (.seq ki es l, r3)
       | _ => none
     | _ => none
@@ -131,18 +135,18 @@ partial def parseArg : List Char → Option (Arg × List Char)
     match r1 with
     | ';' :: '-' :: ')' :: r2 => some (.optNone es, r2)
     | ';' :: r2 =>
-      let (a, r3) ← parseArg r2
+      let (a, r3) ← parseArg spec r2
       match r3 with | ')' :: r4 => some (.optSome a, r4) | _ => none
     | _ => none
   | 'R' :: '(' :: cs => do
-    let (a, r) ← parseArg cs
+    let (a, r) ← parseArg spec cs
     match r with
     | ',' :: r1 =>
-      let (b, r2) ← parseArg r1
+      let (b, r2) ← parseArg spec r1
       match r2 with | ')' :: r3 => some (.pair a b, r3) | _ => none
     | _ => none
   | 'T' :: '(' :: cs => do
-    let (l, r) ← parseArgs cs
+    let (l, r) ← parseArgs spec cs
     some (.tuple l, r)
   | 'D' :: cs => do let (b, r) ← hexField cs; some (.pod b, r)
   | 'N' :: cs => do
@@ -159,22 +163,22 @@ partial def parseArg : List Char → Option (Arg × List Char)
     match r with | '.' :: r' => some (.sref (List.replicate 8 0) n, r') | _ => none
   | 'H' :: cs => do let (b, r) ← hexField cs; some (.path b, r)
   | _ => none
-partial def parseArgs : List Char → Option (List Arg × List Char)
+partial def parseArgs (spec : Bool) : List Char → Option (List Arg × List Char)
   | ')' :: cs => some ([], cs)
   | cs => do
-    let (a, r) ← parseArg cs
+    let (a, r) ← parseArg spec cs
     match r with
-    | ',' :: r1 => let (l, r2) ← parseArgs r1; some (a :: l, r2)
+    | ',' :: r1 => let (l, r2) ← parseArgs spec r1; some (a :: l, r2)
     | ')' :: r1 => some ([a], r1)
     | _ => none
 end
 
 /-- `a;b;c` (a statement's arguments), `-` = none -/
-partial def parseArgList (s : String) : Option (List Arg) :=
+partial def parseArgList (s : String) (spec : Bool := false) : Option (List Arg) :=
   if s == "-" then some []
   else
     let rec go (cs : List Char) (acc : List Arg) : Option (List Arg) :=
-      match parseArg cs with
+      match parseArg spec cs with
       | none => none
       | some (a, []) => some (acc ++ [a])
       | some (a, ';' :: r) => go r (acc ++ [a])
@@ -238,6 +242,9 @@ structure Stats where
   san : Nat := 0
   guard : Nat := 0
   alloc : Nat := 0
+  sdrop : Nat := 0
+  edrop : Nat := 0
+  oracle : Nat := 0           -- property violations found by comparing the measurement with the model's prediction
   cachedLens : Nat := 0       -- cases whose value caches at least one length
   nested : Nat := 0           -- nesting depth ≥ 2
   startIdxPos : Nat := 0      -- size pass started on a non-empty cache
@@ -247,7 +254,7 @@ structure Stats where
 
 /-- model observation of an `arg` case -/
 def obsArg (ws rhs : List String) : Option (String × Arg × Cache × Cache) := do
-  let a ← (parseArg (kv ws "a").toList).bind (fun p => if p.2.isEmpty then some p.1 else none)
+  let a ← (parseArg false (kv ws "a").toList).bind (fun p => if p.2.isEmpty then some p.1 else none)
   let c0 : Cache := { data := parseCache (kv ws "c0"), cap := Drv.nat! (kv ws "cap0") }
   let off := Drv.nat! (kv ws "off")
   let r := sizePass c0 a
@@ -295,6 +302,68 @@ def obsE2E (ws : List String) : Option (String × List Arg) := do
       | some (_, _, _, rest) => toString ((record.length + 3) - rest.length)
   some (s!"reserved={res} consumed={consumed}", args)
 
+/-- `h=` field: the thread's earlier statements, `|`-separated, each `L:<args>` (logged) or `D:<args>` (dropped between
+    the two passes); `-` = none -/
+def parseHistory (s : String) : Option (List StmtOp) :=
+  if s == "-" || s == "" then some []
+  else (s.splitOn "|").mapM (fun t =>
+    if t.startsWith "D:" then (parseArgList (t.drop 2).toString).map StmtOp.dropped
+    else if t.startsWith "L:" then (parseArgList (t.drop 2).toString).map StmtOp.logged
+    else none)
+
+/-- `sdrop`: the two passes of a statement on the cache an explicit history of logged / dropped statements left
+    (`cacheAfter true`: the clear() at the start of the size pass — what `C04_drop_leaves_nothing` is about) -/
+def obsSDrop (ws rhs : List String) : Option (String × List Arg × List StmtOp) := do
+  let args ← parseArgList (kv ws "a")
+  let ops ← parseHistory (kv ws "h")
+  let c0 : Cache := { data := parseCache (kv ws "c0"), cap := Drv.nat! (kv ws "cap0") }
+  let off := Drv.nat! (kv ws "off")
+  let c1 := cacheAfter true c0 ops
+  let r := sizeStatement c1 args
+  let wantHex := kv rhs "hex" != "-"
+  match encodeL fill r.2 0 off args with
+  | none => some (s!"total={r.1} cache={showCache r.2.data} encode-faults", args, ops)
+  | some (bytes, _) =>
+    let tail : Bytes := [0xAB, 0, 0xCD]
+    let consumed := match decodeL (shapesOf args) off (bytes ++ tail) with
+      | none => "fault"
+      | some (_, rest) => toString ((bytes ++ tail).length - rest.length)
+    some (s!"total={r.1} cache={showCache r.2.data} written={bytes.length} hex={if wantHex then hexOrDot bytes else "-"} consumed={consumed} nargs={args.length}",
+          args, ops)
+
+/-- `edrop`: a real log statement on a bounded dropping queue after the statements of `h=` were attempted on a queue
+    with `qused` of `qcap` bytes in use: how many of them the queue refuses, then (queue drained) bytes reserved and
+    consumed for the statement itself, written with the cache the history left -/
+def obsEDrop (ws : List String) : Option (String × List Arg × List StmtOp) := do
+  let args ← parseArgList (kv ws "a")
+  let ops ← parseHistory (kv ws "h")
+  let dyn := kv ws "dyn" == "1"
+  let f := Extracted.frame
+  let c0 := Cache.init Extracted.cacheInlineCap
+  -- the statements of the history, in order, against the queue (`qmax` = 0: a bounded queue never grows; an unbounded
+  -- one refuses — null, or QuillError for a record over the maximum — when doubling would exceed `qmax`)
+  let q0 : Queue := { cap := Drv.nat! (kv ws "qcap"), used := Drv.nat! (kv ws "qused"), maxCap := Drv.nat! (kv ws "qmax") }
+  let (dropped, _, _) := ops.foldl (fun (acc : Nat × Queue × Cache) op =>
+      let (n, q, c) := acc
+      let total := reserved f c op.args false
+      let c' := (sizeStatement c op.args).2
+      match (q.reserve total).2 with
+      | none => (n + 1, q, c')
+      | some q' => (n, q', c')) (0, q0, c0)
+  let c := cacheAfter true c0 ops
+  let res := reserved f c args dyn
+  -- the backend has drained the queue: the statement is refused only if it exceeds the capacity (and the queue cannot grow)
+  if (({ q0 with used := 0 } : Queue).reserve res).2.isNone then some (s!"dropped={dropped} reserved=0 consumed=0", args, ops) else
+  let hdr : Bytes := List.replicate f.header 0
+  let lvl : Bytes := if dyn then List.replicate f.lvlBytes 7 else []
+  let consumed := match writeRecord fill c 0 hdr args lvl with
+    | none => "fault"
+    | some record =>
+      match readRecord f (shapesOf args) 0 dyn (record ++ [1, 2, 3]) with
+      | none => "fault"
+      | some (_, _, _, rest) => toString ((record.length + 3) - rest.length)
+  some (s!"dropped={dropped} reserved={res} consumed={consumed}", args, ops)
+
 def obsSan (ws : List String) : Option String := do
   let h := kv ws "in"
   let b ← if h == "." then some [] else bytesOfHex h.toList
@@ -309,27 +378,41 @@ def obsGuard (ws : List String) : Option String := do
  events=<ctx>,<cachegrow>,<queuegrow>,<temp>,<usercopy>,<format>,<paircopy>`  (counts per kind) -/
 def countEv (l : List Event) (p : Event → Bool) : Nat := (l.filter p).length
 
-def obsAlloc (ws : List String) : Option (String × List Arg) := do
-  let args ← parseArgList (kv ws "a")
-  let fe : Frontend :=
+/-- the model's own state of the calling thread, carried from one `alloc` line to the next: the line of a thread's
+    first call (`reg=0`) starts a fresh `Frontend` (inline-capacity cache, empty queue of the configured capacity); every
+    later line of that thread is predicted from the state the *model* reached (`logCall`, then `Queue.drain true` when
+    the harness had the backend drain the queue: `drained=1`) — the `reg/ccap/qcap/qused` fields the harness measured
+    before the call are compared with it, not fed into it. The container table is the budget's (`spec = true`). -/
+def allocPre (ws : List String) (tracked : Option Frontend) : Frontend :=
+  let fromLine : Frontend :=
     { registered := kv ws "reg" == "1",
       cache := { data := [], cap := Drv.nat! (kv ws "ccap") },
       queue := { cap := Drv.nat! (kv ws "qcap"), used := Drv.nat! (kv ws "qused"), maxCap := Drv.nat! (kv ws "qmax") } }
+  if kv ws "reg" == "0" then { fromLine with cache := Cache.init Extracted.cacheInlineCap }
+  else tracked.getD fromLine
+
+def showPre (fe : Frontend) : String :=
+  s!"reg={if fe.registered then 1 else 0} ccap={fe.cache.cap} qcap={fe.queue.cap} qused={fe.queue.used}"
+
+def eventCounts (ev : List Event) : List Nat :=
+  [countEv ev (· == .ctxCreate),
+   countEv ev (fun e => match e with | .cacheGrow _ => true | _ => false),
+   countEv ev (fun e => match e with | .queueGrow _ => true | _ => false),
+   countEv ev (· == .tempString), countEv ev (· == .userCopy), countEv ev (· == .formatCall), countEv ev (· == .pairCopy)]
+
+def obsAlloc (ws : List String) (tracked : Option Frontend) : Option (String × List Nat × Frontend × Frontend) := do
+  let args ← parseArgList (kv ws "a") true
+  let fe := allocPre ws tracked
   let r := logCall Extracted.frame fe args (kv ws "dyn" == "1")
-  let ev := r.1
-  let n1 := countEv ev (· == .ctxCreate)
-  let n2 := countEv ev (fun e => match e with | .cacheGrow _ => true | _ => false)
-  let n3 := countEv ev (fun e => match e with | .queueGrow _ => true | _ => false)
-  let n4 := countEv ev (· == .tempString)
-  let n5 := countEv ev (· == .userCopy)
-  let n6 := countEv ev (· == .formatCall)
-  let n7 := countEv ev (· == .pairCopy)
-  some (s!"events={n1},{n2},{n3},{n4},{n5},{n6},{n7} ccap={r.2.cache.cap} qcap={r.2.queue.cap}", args)
+  let n := eventCounts r.1
+  let post := if kv ws "drained" == "0" then r.2 else { r.2 with queue := r.2.queue.drain true Extracted.readerBatchPercent }
+  some (s!"events={",".intercalate (n.map toString)} ccap={r.2.cache.cap} qcap={r.2.queue.cap}", n, fe, post)
 
 def run : IO UInt32 := do
   let stdin ← IO.getStdin
   let lines ← Drv.readLines stdin
   let mut st : Stats := {}
+  let mut thread : Option Frontend := none   -- C11: the model's state of the calling thread (see `allocPre`)
   let mut lineNo := 0
   for line in lines do
     lineNo := lineNo + 1
@@ -385,10 +468,40 @@ def run : IO UInt32 := do
             pure (some m)
         | "san" => st := { st with san := st.san + 1 }; pure (obsSan rest)
         | "guard" => st := { st with guard := st.guard + 1 }; pure (obsGuard rest)
-        | "alloc" =>
-          match obsAlloc rest with
+        | "sdrop" =>
+          match obsSDrop rest rhs with
           | none => pure none
-          | some (m, _) => st := { st with alloc := st.alloc + 1 }; pure (some m)
+          | some (m, args, ops) =>
+            st := { st with sdrop := st.sdrop + 1 }
+            if !(wfL args) || !(ops.all (fun o => wfL o.args)) then
+              IO.println s!"MODEL-NOT-WF case={id}: value outside the theorems' hypotheses"
+              st := { st with problems := st.problems + 1 }
+            st := { st with nontrivial := st.nontrivial + (if (lensL args).length > 0 then 1 else 0) }
+            pure (some m)
+        | "edrop" =>
+          match obsEDrop rest with
+          | none => pure none
+          | some (m, args, _) =>
+            st := { st with edrop := st.edrop + 1, nontrivial := st.nontrivial + (if (lensL args).length > 0 then 1 else 0) }
+            pure (some m)
+        | "alloc" =>
+          match obsAlloc rest thread with
+          | none => pure none
+          | some (m, predicted, pre, post) =>
+            st := { st with alloc := st.alloc + 1 }
+            thread := some post
+            -- the state the harness measured before the call vs the state the model reached
+            let implPre := s!"reg={kv rest "reg"} ccap={kv rest "ccap"} qcap={kv rest "qcap"} qused={kv rest "qused"}"
+            if kv rest "reg" == "1" && implPre != showPre pre then
+              IO.println s!"MISMATCH case={id} kind=alloc-state {" ".intercalate (rest.take 1)}: impl=[{implPre}] model=[{showPre pre}]"
+              st := { st with mismatches := st.mismatches + 1 }
+            -- the property itself: the calling thread did something (allocation by kind, formatter call) that the
+            -- model — the theorems' `logCall` on the budget's table, queue drained as the history says — does not predict
+            let measured := ((kv rhs "events").splitOn ",").map Drv.nat!
+            if measured.length == predicted.length && (List.zip measured predicted).any (fun p => p.1 > p.2) then
+              IO.println s!"ORACLE allocation-not-predicted case={id} shape={" ".intercalate (rest.take 1)} model-state=[{showPre pre}] predicted-events={",".intercalate (predicted.map toString)} measured-events={kv rhs "events"} (ctx,cachegrow,queuegrow,temp,usercopy,format,paircopy) {" ".intercalate (rhs.drop 3)} a={((kv rest "a").take 300).toString}"
+              st := { st with oracle := st.oracle + 1 }
+            pure (some m)
         | _ => pure none
       match model with
       | none =>
@@ -399,7 +512,7 @@ def run : IO UInt32 := do
         -- C04 compares contents, not the capacity of the size cache (its theorems hold for every capacity; the capacity
         -- and its growth are C11's subject, compared on the `alloc` lines)
         let implS := if kind == "alloc" then " ".intercalate (rhs.take 3)
-          else if kind == "arg" || kind == "stmt" then " ".intercalate (rhs.filter (fun w => !w.startsWith "cap="))
+          else if kind == "arg" || kind == "stmt" || kind == "sdrop" then " ".intercalate (rhs.filter (fun w => !w.startsWith "cap="))
           else rhsS
         if m != implS then
           IO.println s!"MISMATCH case={id} kind={kind} {" ".intercalate (rest.take 1)}: impl=[{(implS.take 600).toString}] model=[{(m.take 600).toString}] a={((kv rest "a").take 400).toString}"
@@ -407,7 +520,7 @@ def run : IO UInt32 := do
     | _ =>
       IO.println s!"BAD-LINE {lineNo}: {(line.take 120).toString}"
       st := { st with problems := st.problems + 1 }
-  IO.println s!"TRACE codec arg={st.arg} stmt={st.stmt} e2e={st.e2e} san={st.san} guard={st.guard} alloc={st.alloc} cached_lengths={st.cachedLens} nested={st.nested} start_index_positive={st.startIdxPos} cache_grew={st.grew}"
+  IO.println s!"TRACE codec arg={st.arg} stmt={st.stmt} e2e={st.e2e} san={st.san} guard={st.guard} alloc={st.alloc} sdrop={st.sdrop} edrop={st.edrop} model_oracle_hits={st.oracle} cached_lengths={st.cachedLens} nested={st.nested} start_index_positive={st.startIdxPos} cache_grew={st.grew}"
   IO.println s!"DONE cases={st.cases} mismatches={st.mismatches} problems={st.problems} nontrivial={st.nontrivial}"
   return (if st.mismatches + st.problems == 0 then 0 else 1)
 
